@@ -154,6 +154,16 @@ def _ftype(f: CF) -> str:
     return f"List[{inner}]" if f.role == "list" else inner
 
 
+def _annotated(f: CF) -> str:
+    """field type of a NamedTuple / TypedDict member: the alias metadata goes into Annotated"""
+    tp = _ftype(f)
+    if f.alias is not None:
+        return f"Annotated[{tp}, alias({f.alias!r}" + (", override=False)]" if f.no_override else ")]")
+    if f.no_override:
+        return f"Annotated[{tp}, alias(override=False)]"
+    return tp
+
+
 def default_of(t: CT, f: CF) -> int:
     return 200 + t.fields.index(f)
 
@@ -191,6 +201,8 @@ def class_source(t: CT) -> List[str]:
             elif style == "field_yield":
                 other = next((g.name for g in t.fields if g.name != fname and g.role in ("int", "tvar")), fname)
                 out += [f"    @validator({fname})", f"    def {n}(self):", f"        if self.{fname} == 16:", f'            yield get_alias(self).{other}, "fourteen"', ""]
+            elif style == "discard_yield":
+                out += [f"    @validator(discard={discard_target(t, fname)})", f"    def {n}(self):", f"        if self.{fname} in {ALL_TRIGGERS!r}:", f'            yield get_alias(self).{fname}, "discarding"', ""]
             elif style == "yield_path2":
                 other = next((g.name for g in t.fields if g.name != fname and g.role in ("int", "tvar")), fname)
                 out += ["    @validator", f"    def {n}(self):", f"        if self.{fname} == 17:", f'            yield (get_alias(self).{fname}, 3, get_alias(self).{other}), "deep"', ""]
@@ -201,10 +213,10 @@ def class_source(t: CT) -> List[str]:
             out.append(f"@alias({CLASS_ALIASER_SRC[t.class_aliaser]})")
         out.append(f"class {t.name}(NamedTuple):")
         for f in t.fields:
-            out.append(f"    {f.name}: {_ftype(f)}" + ("" if f.required else f" = {default_of(t, f)}"))
+            out.append(f"    {f.name}: {_annotated(f)}" + ("" if f.required else f" = {default_of(t, f)}"))
         out.append("")
     elif t.kind == "typeddict":
-        out.append(f"{t.name} = TypedDict({t.name!r}, {{" + ", ".join(f"{f.name!r}: {_ftype(f)}" for f in t.fields) + "})")
+        out.append(f"{t.name} = TypedDict({t.name!r}, {{" + ", ".join(f"{f.name!r}: {_annotated(f)}" for f in t.fields) + "})")
         if t.class_aliaser:
             out.append(f"alias({CLASS_ALIASER_SRC[t.class_aliaser]})({t.name})")
         out.append("")
@@ -214,7 +226,19 @@ def class_source(t: CT) -> List[str]:
     return out
 
 
-TRIGGER = {"yield_alias": 13, "field": 14, "yield_astr": 15, "field_yield": 16, "yield_path2": 17}
+TRIGGER = {"yield_alias": 13, "field": 14, "yield_astr": 15, "field_yield": 16, "yield_path2": 17, "discard_yield": 18}
+# a discarding validator fails on every trigger value (so that it fails together with later validators)
+ALL_TRIGGERS = (13, 14, 15, 16, 17, 18)
+
+
+def discard_target(t: CT, fname: str) -> str:
+    """the field discarded by a discard_yield validator on `fname`: the last plain field nobody
+    reads in a validator (else the last other plain field, else the field itself)"""
+    read = {n for _, n in t.validators}
+    plain = [f.name for f in t.fields if f.role in ("int", "tvar") and f.name != fname]
+    free = [n for n in plain if n not in read]
+    return (free or plain or [fname])[-1]
+
 
 PARAM_ALIASES = ["class", "otherArg", "from_value", "snake_param"]
 
@@ -259,7 +283,10 @@ def named_objects(t: CT) -> List[CT]:
 
 
 def graphql_capable(t: CT) -> bool:
-    return all(c.kind != "typeddict" and not c.generic for c in closure(t))
+    # left to C19: a flattened object that itself has object-typed fields is resolved through the
+    # flattening wrapper of its parent ("... object has no attribute ...") when a GraphQL query is executed
+    flat_with_children = any(f.role == "flat" and any(g.sub is not None for g in f.sub.fields) for c in closure(t) for f in c.fields)  # type: ignore
+    return all(c.kind != "typeddict" and not c.generic for c in closure(t)) and not flat_with_children
 
 
 # ---------------------------------------------------------------------------
@@ -281,21 +308,23 @@ def flat_fields(t: CT) -> List[Tuple[CT, CF]]:
     return out
 
 
-def build_datum(t: CT, dyn, depth: int = 0, leaf=None, only_required: bool = False) -> dict:
+def build_datum(t: CT, dyn, depth: int = 0, leaf=None, only_required: bool = False, extras: Optional[dict] = None) -> dict:
     d: Dict[str, Any] = {}
+    if extras and t.kind == "typeddict":
+        d.update(extras)
     for f in t.fields:
         if only_required and not f.required:
             continue
         if f.role == "flat":
-            d.update(build_datum(f.sub, dyn, depth + 1, leaf, only_required))  # type: ignore
+            d.update(build_datum(f.sub, dyn, depth + 1, leaf, only_required, extras))  # type: ignore
             continue
         k = ext(t, f, dyn)
         if f.role in ("int", "tvar"):
             d[k] = value_of(t, f, depth) if leaf is None else leaf
         elif f.role in ("nested", "box"):
-            d[k] = build_datum(f.sub, dyn, depth + 1, leaf, only_required)  # type: ignore
+            d[k] = build_datum(f.sub, dyn, depth + 1, leaf, only_required, extras)  # type: ignore
         elif f.role == "list":
-            d[k] = [build_datum(f.sub, dyn, depth + 1, leaf, only_required)]  # type: ignore
+            d[k] = [build_datum(f.sub, dyn, depth + 1, leaf, only_required, extras)]  # type: ignore
     return d
 
 
@@ -326,17 +355,19 @@ def required_locs(t: CT, dyn) -> List[tuple]:
     return out
 
 
-def make_obj(t: CT, mod, depth: int = 0, only_required: bool = False):
+def make_obj(t: CT, mod, depth: int = 0, only_required: bool = False, extras: Optional[dict] = None):
     vals: Dict[str, Any] = {}
+    if extras and t.kind == "typeddict":
+        vals.update(extras)
     for f in t.fields:
         if only_required and not f.required:
             continue
         if f.role in ("int", "tvar"):
             vals[f.name] = value_of(t, f, depth)
         elif f.role == "list":
-            vals[f.name] = [make_obj(f.sub, mod, depth + 1, only_required)]  # type: ignore
+            vals[f.name] = [make_obj(f.sub, mod, depth + 1, only_required, extras)]  # type: ignore
         else:
-            vals[f.name] = make_obj(f.sub, mod, depth + 1, only_required)  # type: ignore
+            vals[f.name] = make_obj(f.sub, mod, depth + 1, only_required, extras)  # type: ignore
     return vals if t.kind == "typeddict" else getattr(mod, t.name)(**vals)
 
 
@@ -351,6 +382,10 @@ def image(t: CT, obj, depth: int = 0) -> Any:
             return ("wrong-class", type(obj).__name__)
         get = lambda n: getattr(obj, n, "<unset>")  # noqa: E731
     out = {}
+    if t.kind == "typeddict":
+        undeclared = {k: v for k, v in obj.items() if k not in {f.name for f in t.fields}}
+        if undeclared:
+            out["<undeclared keys>"] = undeclared
     for f in t.fields:
         v = get(f.name)
         if f.role in ("int", "tvar") or v == "<unset>":
@@ -362,8 +397,10 @@ def image(t: CT, obj, depth: int = 0) -> Any:
     return out
 
 
-def expected_image(t: CT, depth: int = 0, only_required: bool = False) -> Any:
-    out = {}
+def expected_image(t: CT, depth: int = 0, only_required: bool = False, extras: Optional[dict] = None) -> Any:
+    out: Dict[str, Any] = {}
+    if extras and t.kind == "typeddict":
+        out["<undeclared keys>"] = dict(extras)
     for f in t.fields:
         if only_required and not f.required:
             if t.kind == "typeddict":
@@ -372,9 +409,9 @@ def expected_image(t: CT, depth: int = 0, only_required: bool = False) -> Any:
         elif f.role in ("int", "tvar"):
             out[f.name] = value_of(t, f, depth)
         elif f.role == "list":
-            out[f.name] = [expected_image(f.sub, depth + 1, only_required)]  # type: ignore
+            out[f.name] = [expected_image(f.sub, depth + 1, only_required, extras)]  # type: ignore
         else:
-            out[f.name] = expected_image(f.sub, depth + 1, only_required)  # type: ignore
+            out[f.name] = expected_image(f.sub, depth + 1, only_required, extras)  # type: ignore
     return out
 
 
@@ -450,12 +487,24 @@ def systematic_types() -> List[CT]:
         sub = CT(f"NI{i}", "namedtuple", (CF("deep_name"),), CLASS_ALIASERS[(i + 1) % 3])
         out.append(CT(f"N{i}", "namedtuple", (CF("some_name"), CF("child_obj", role="nested", sub=sub)), ca))
         i += 1
+        # members aliased through Annotated[..., alias(...)] (with / without override)
+        for al, no in (("other_name", False), ("otherName", True), ("class", False), ("$id", False), (None, True)):
+            out.append(CT(f"TD{i}", "typeddict", (CF("first_name", al, no), CF("a_b", ALIAS_POOL[i % len(ALIAS_POOL)], i % 3 == 0), CF("import")), ca))
+            i += 1
+            out.append(CT(f"N{i}", "namedtuple", (CF("first_name", al, no), CF("a_b", ALIAS_POOL[(i + 4) % len(ALIAS_POOL)], i % 3 == 1, required=False)), ca))
+            i += 1
+        tsub = CT(f"TDI{i}", "typeddict", (CF("deep_name", "deepAlias"), CF("x")), CLASS_ALIASERS[(i + 1) % 3])
+        out.append(CT(f"TD{i}", "typeddict", (CF("some_name", "other_name"), CF("child_obj", "kid", False, True, "nested", tsub), CF("kids", None, False, True, "list", tsub)), ca))
+        i += 1
     # F: validators yielding a field path / field validators
     for ca in CLASS_ALIASERS:
         for al in (None, "other_name", "otherName", "class", "$ref"):
             for no in (False, True):
-                fields = _order([CF("some_name", al, no), CF("second_name", ALIAS_POOL[(i + 2) % len(ALIAS_POOL)], i % 3 == 0, required=i % 2 == 0)])
+                fields = _order([CF("some_name", al, no), CF("second_name", ALIAS_POOL[(i + 2) % len(ALIAS_POOL)], i % 3 == 0, required=i % 2 == 0), CF("third_one", ALIAS_POOL[(i + 5) % len(ALIAS_POOL)] if i % 2 else None, required=False)])
                 vals = (("yield_alias", "some_name"), ("field", "second_name"), ("field_yield" if i % 2 else "yield_astr", "some_name"), ("yield_path2", "second_name"))
+                if i % 3 != 2:
+                    # an earlier validator that fails and discards a field nobody else reads: the later ones still run
+                    vals = (("discard_yield", "third_one" if i % 3 else "some_name"),) + vals
                 t = CT(f"F{i}", "dataclass", fields, ca, validators=vals)
                 if i % 5 == 0:
                     t = CT(f"FO{i}", "dataclass", (CF("own_name", ALIAS_POOL[i % 5]), CF("child_obj", "kid_alias", i % 2 == 0, True, "nested", t)), CLASS_ALIASERS[(i + 1) % 3])
@@ -492,8 +541,8 @@ def random_types(rng: random.Random, count: int) -> List[CT]:
                 fields.append(CF(nm, al, role != "flat" and rng.random() < 0.3, role != "int" or rng.random() < 0.6, role, sub))
             vals: Tuple[Tuple[str, str], ...] = ()
             ints = [f.name for f in fields if f.role == "int"]
-            if ints and rng.random() < 0.4:
-                vals = ((rng.choice(("yield_alias", "field", "field_yield", "yield_astr", "yield_path2")), rng.choice(ints)),)
+            if ints and rng.random() < 0.5:
+                vals = tuple((rng.choice(("yield_alias", "field", "field_yield", "yield_astr", "yield_path2", "discard_yield")), rng.choice(ints)) for _ in range(rng.randint(1, 3)))
             dep: Tuple[Tuple[str, Tuple[str, ...]], ...] = ()
             opt = [f.name for f in fields if not f.required and f.role == "int"]
             if len(opt) >= 2 and rng.random() < 0.5:
@@ -703,6 +752,17 @@ class Views:
                 elif image(t, got[1]) != exp:
                     self.fail("deserialize", f"image:{datum!r}:{more}", f"the datum {datum!r} gives {image(t, got[1])!r} (options {more}), expected {exp!r}", datum, image(t, got[1]), exp, self.DES)
 
+        if any(c.kind == "typeddict" for c in closure(t)):
+            # additional_properties=True: a TypedDict keeps the undeclared keys, the declared ones are
+            # still consumed under their external names (and stored under the Python names only)
+            extras = {"zz_extra": [1, 2], "Other Extra": 5}
+            datum = build_datum(t, dyn, extras=extras)
+            self.case("deserialize", (datum, "additional"))
+            got = self.deser(datum, additional_properties=True)
+            exp = expected_image(t, extras=extras)
+            if got[0] != "ok" or image(t, got[1]) != exp:
+                self.fail("deserialize", f"additional:{datum!r}", f"deserialize({datum!r}, additional_properties=True) gives {got[1] if got[0] != 'ok' else image(t, got[1])!r}, expected {exp!r}", datum, got, exp, self.DES)
+
     def v_other_spellings(self):
         """any other spelling of a field's name is not the key: unexpected + (if required) missing"""
         t, dyn = self.t, self.dyn
@@ -746,6 +806,22 @@ class Views:
                 got = f"{type(e).__name__}: {e}"
             if got != exp:
                 self.fail("serialize", f"keys:{more}", f"serialize({obj!r}, {more}) = {got!r}, expected the external names {exp!r}", repr(obj), got, exp, ["ObjectMethod", "SerializationMethodVisitor", "ObjectVisitor"])
+        # additional_properties=True: a TypedDict keeps its undeclared keys as they are (docs:
+        # "without aliasing"); every declared field still appears once, under its external name
+        extras = {"zz_extra": [1, 2], "Other Extra": 5}
+        for with_extras in (False, True):
+            if with_extras and not any(c.kind == "typeddict" for c in closure(t)):
+                continue
+            obj2 = make_obj(t, self.mod, extras=extras if with_extras else None)
+            exp2 = build_datum(t, dyn, extras=extras if with_extras else None)
+            more = {"additional_properties": True}
+            self.case("serialize", (repr(obj2), more))
+            try:
+                got = serialize(self.tp, obj2, **self.kw, **more)
+            except Exception as e:  # noqa: BLE001
+                got = f"{type(e).__name__}: {e}"
+            if got != exp2:
+                self.fail("serialize", f"additional:{with_extras}", f"serialize({obj2!r}, additional_properties=True) = {got!r}, expected each field once under its external name (+ the undeclared keys of a TypedDict) {exp2!r}", repr(obj2), got, exp2, ["ObjectAdditionalMethod", "SerializationMethodVisitor", "ObjectVisitor"])
 
     # -- properties / required / dependentRequired of both schemas --------------------------
     def v_schemas(self):
@@ -885,31 +961,67 @@ class Views:
 
     VAL = ["validate", "Validator", "apply_aliaser", "build_validation_error", "ObjectMethod"]
 
-    def _validator_cases(self, t: CT, prefix: tuple, path_to: List[Tuple[CT, CF]], dyn):
-        """(datum, expected errors) for each validator of `t` reached through the fields path_to"""
+    def _validator_errors(self, t: CT, style: str, fname: str, prefix: tuple, dyn) -> List[Tuple[tuple, str]]:
         d = dyn or (lambda s: s)
+        f = t.f(fname)
+        other = next((g for g in t.fields if g.name != fname and g.role in ("int", "tvar")), f)
+        if style == "yield_alias":
+            return [(prefix + (ext(t, f, dyn),), "unlucky")]
+        if style == "yield_astr":
+            return [(prefix + (d("raw_key"), 0), "unlucky")]
+        if style == "field":
+            return [(prefix + (ext(t, f, dyn),), "fourteen")]
+        if style == "yield_path2":
+            return [(prefix + (ext(t, f, dyn), 3, ext(t, other, dyn)), "deep")]
+        if style == "discard_yield":
+            return [(prefix + (ext(t, f, dyn),), "discarding")]
+        return [(prefix + (ext(t, f, dyn), ext(t, other, dyn)), "fourteen")]
+
+    def _simulate(self, t: CT, values: Dict[str, int], prefix: tuple, dyn) -> List[Tuple[tuple, str]]:
+        """the errors of the validators of `t` on structurally valid data (statement of C10: declaration
+        order, a failing validator discards its discard= fields / its own field for a field validator,
+        validators reading a discarded field are skipped, all others still run and their errors are
+        merged), each located by external names"""
+        errs: List[Tuple[tuple, str]] = []
+        discarded: set = set()
         for style, fname in t.validators:
-            f = t.f(fname)
-            trigger = TRIGGER[style]
+            if fname in discarded:
+                continue
+            v = values.get(fname)
+            fires = v in ALL_TRIGGERS if style == "discard_yield" else v == TRIGGER[style]
+            if not fires:
+                continue
+            errs += self._validator_errors(t, style, fname, prefix, dyn)
+            if style in ("field", "field_yield"):
+                discarded.add(fname)
+            elif style == "discard_yield":
+                discarded.add(discard_target(t, fname))
+        return errs
+
+    def _validator_cases(self, t: CT, prefix: tuple, path_to: List[Tuple[CT, CF]], dyn):
+        """(datum, expected errors): each validator of `t` (reached through the fields path_to)
+        triggered alone, then several validators triggered by the same datum"""
+        assignments: List[Dict[str, int]] = [{fname: TRIGGER[style]} for style, fname in t.validators]
+        by_field: Dict[str, List[int]] = {}
+        for style, fname in t.validators:
+            by_field.setdefault(fname, []).append(TRIGGER[style])
+        if len(t.validators) > 1:
+            for r in range(max(len(v) for v in by_field.values())):
+                assignments.append({fname: trig[r % len(trig)] for fname, trig in by_field.items()})
+        seen = []
+        for a in assignments:
+            if a in seen:
+                continue
+            seen.append(a)
             datum = build_datum(self.t, dyn)
             cur = datum
             for o, pf in path_to:
                 cur = cur[ext(o, pf, dyn)]
-            cur[ext(t, f, dyn)] = trigger
-            if style == "yield_alias":
-                exp = [(prefix + (ext(t, f, dyn),), "unlucky")]
-            elif style == "yield_astr":
-                exp = [(prefix + (d("raw_key"), 0), "unlucky")]
-            elif style == "field":
-                exp = [(prefix + (ext(t, f, dyn),), "fourteen")]
-            elif style == "yield_path2":
-                other = next((g for g in t.fields if g.name != fname and g.role in ("int", "tvar")), f)
-                exp = [(prefix + (ext(t, f, dyn), 3, ext(t, other, dyn)), "deep")]
-            else:
-                other = next((g for g in t.fields if g.name != fname and g.role in ("int", "tvar")), f)
-                exp = [(prefix + (ext(t, f, dyn), ext(t, other, dyn)), "fourteen")]
-            # other validators of the same object may fire on the same datum only through their own trigger values
-            yield datum, exp
+            values = {f.name: cur[ext(t, f, dyn)] for f in t.fields if f.role in ("int", "tvar")}
+            for fname, v in a.items():
+                cur[ext(t, t.f(fname), dyn)] = v
+                values[fname] = v
+            yield datum, self._simulate(t, values, prefix, dyn)
 
     def v_validators(self):
         t, dyn = self.t, self.dyn
